@@ -24,7 +24,7 @@ theorem comp_jumbo {n : Nat} (hG : Comp2 toks .giantTerm (n + 1)) :
   have no : ∀ {i k}, simpleK k = false → ¬KAt toks i k := fun hk h => by
     rw [hS _ _ h] at hk; cases hk
   rcases inv_jumbo h with g | o
-  · obtain ⟨r, r0, hr0⟩ := hG _ _ _ hl g (hf'.mono (fun k hk => by
+  · obtain ⟨r, r0, hr0, _⟩ := hG _ _ _ hl g (hf'.mono (fun k hk => by
       simp only [extTerm, extGJ, Bool.or_eq_true]; exact Or.inl (Or.inl hk)))
     refine jumbo_of [.lambda, .lambdaImplicit, .annotatedLambda, .annotatedLambdaImplicit, .pi,
       .piImplicit, .nonDependentPi, .if_] [] rfl ?_ r (segT_facts g).2
